@@ -52,6 +52,10 @@ NOT_IMPORTABLE = ["amoco.arch.avr.cpu", "amoco.arch.ppc32.cpu_e200", "amoco.arch
 
 
 def isa_modes(names=None):
+    """all (isa, mode) pairs.  VERIF_DEC_ISAS=x86,x64 restricts the list - a development aid for mutation
+    experiments only; the registered commands never set it."""
+    if names is None and os.environ.get("VERIF_DEC_ISAS"):
+        names = os.environ["VERIF_DEC_ISAS"].split(",")
     out = []
     for name, mod, envm, modes in ISAS:
         if names and name not in names:
@@ -335,6 +339,10 @@ def instr_data(i, skip=("address",)):
     for k, v in vars(i).items():
         if k in skip:
             continue
+        if k == "misc" and isinstance(v, dict):
+            # misc is a defaultdict that answers None for undefined keys (arch/core.py: icore), and reading
+            # it creates the key: an entry holding None is observably the same as no entry
+            v = dict((a, b) for a, b in v.items() if b is not None)
         d[k] = proj(v)
     return d
 
